@@ -144,6 +144,25 @@ theorem match_len (fs : List (Bytes × V)) (h : ∀ p ∈ fs, FieldDec p.1 p.2) 
     show ((4 + (tlvCat fs).length + 7) % 65536 / 8) * 8 % 65536 = _
     omega
 
+/-- the same for a match value with any type and length field (`Len()` looks at the fields only) -/
+theorem match_len_any (a b : V) (fs : List (Bytes × V)) (h : ∀ p ∈ fs, FieldDec p.1 p.2)
+    (hlen : 4 + (tlvCat fs).length + 7 < 65536) :
+    ∃ ml, Match.lenM (.obj "Match" [a, b, .list (fs.map Prod.snd)]) = .ok (ml, .obj "Match" [a, b, .list (fs.map Prod.snd)])
+      ∧ ml.toNat = (4 + (tlvCat fs).length + 7) / 8 * 8 := by
+  refine ⟨round8 (4 + sum16 (fs.map (fun p => UInt16.ofNat p.1.length))), ?_, ?_⟩
+  · unfold Match.lenM
+    simp only [fields_lens fs h, Res.bind_ok]
+    rfl
+  · have hs := fields_sum fs h (by omega)
+    have h4 : ((4 : UInt16) + sum16 (fs.map (fun p => UInt16.ofNat p.1.length))).toNat = 4 + (tlvCat fs).length := by
+      rw [UInt16.toNat_add, hs]
+      show (4 + (tlvCat fs).length) % 65536 = _
+      omega
+    unfold round8
+    rw [UInt16.toNat_mul, UInt16.toNat_div, UInt16.toNat_add, h4]
+    show ((4 + (tlvCat fs).length + 7) % 65536 / 8) * 8 % 65536 = _
+    omega
+
 /-- the bytes of a padded `ofp_match` holding the given TLVs -/
 def matchBytes (fs : List (Bytes × V)) : Bytes :=
   be16 1 ++ (be16 (UInt16.ofNat (4 + (tlvCat fs).length)) ++ (tlvCat fs ++ zeros ((8 - (4 + (tlvCat fs).length) % 8) % 8)))
